@@ -12,7 +12,7 @@ from pathlib import Path
 from harness import cli_engine as E
 from harness import common as C
 
-INPUTS = ["single", "multi", "twohap"]
+INPUTS = ["single", "multi", "twohap", "cut"]
 PLANS = {
     "quick": dict(proc_runs=2, proc_cap=150, inproc_runs=3, inproc_cap=400, seeds=["0", "1", "random"], spec_seeds=["1", "random"]),
     "thorough": dict(proc_runs=3, proc_cap=600, inproc_runs=3, inproc_cap=819, seeds=["0", "1", "2", "random"], spec_seeds=["1", "2", "3", "random"]),
@@ -116,7 +116,7 @@ def reference(job):
 
 
 def export(run, mode, maxruns, fmts, name):
-    cfg = (f'SPECIFICATION Spec\nCHECK_DEADLOCK FALSE\nCONSTRAINT Emit\nINVARIANT Deterministic\nINVARIANT FormatIndependent\nCONSTANTS Inputs = {{"single", "multi", "twohap"}} '
+    cfg = (f'SPECIFICATION Spec\nCHECK_DEADLOCK FALSE\nCONSTRAINT Emit\nINVARIANT Deterministic\nINVARIANT FormatIndependent\nCONSTANTS Inputs = {{"single", "multi", "twohap", "cut"}} '
            f'Formats = {{{", ".join(chr(34) + f + chr(34) for f in fmts)}}} Seeds = {{"0", "1", "random"}} Dirs = {{"abs", "rel"}} Bufs = {{250000, 7}} Seed0 = "0" Dir0 = "abs" Buf0 = 250000 '
            f'MaxRuns = {maxruns} Mode = "{mode}"\n')
     r = C.tlc_ok(C.tlc("Determinism", cfg, run.dir, name=name, workers=1, timeout=1200), "Determinism export")
